@@ -64,8 +64,11 @@ struct Variable g_v0, g_v1, g_v2;
 double Constraint__get_load(struct Constraint* self)
     __CPROVER_requires(self == &g_c && WF_LOAD && NUM_OK(0) && NUM_OK(1) && NUM_OK(2))
     __CPROVER_assigns()
+#ifdef C15_SUM_CLAUSE /* thorough tier only, on cvc5: "equals the same sum of products" is a floating-point equivalence that
+                         SAT does not finish; cvc5 needs about 1 min on a quiet machine and was seen to stall under load */
     __CPROVER_ensures(self->sharing_policy_ == SharingPolicy__FATPIPE ||
                       __CPROVER_return_value == ADD(ADD(ADD(0.0, 0), 1), 2)) /*@ shared_load_is_the_sum_in_list_order */
+#endif
     __CPROVER_ensures(self->sharing_policy_ != SharingPolicy__FATPIPE || (LE_RES(0) && LE_RES(1) && LE_RES(2)))
     /*@ fatpipe_load_dominates_every_consumer */
     __CPROVER_ensures(self->sharing_policy_ != SharingPolicy__FATPIPE || __CPROVER_return_value == 0.0 || EQ_RES(0) ||
